@@ -308,7 +308,7 @@ def _reset():
 
 
 INTERPRET_MODULES = ["harness.rig", "harness.servers"]
-SYMDICT_FUNCTIONS = ["ReceivingMessage.__init__", "ReceivingMessage.add_payload"]
+SYMDICT_FUNCTIONS = ["ReceivingMessage.*"]      # every method of the decoder: its empty dict displays may get symbolic keys
 STUBS = rig.STUBS
 
 SPECS = [
